@@ -59,8 +59,9 @@ def free_undetectable(phys):
         if re.match(r" {1,4}[A-Za-z]", l):
             return False
         lead = len(l) - len(l.lstrip(" "))
-        if lead < 6 and l.lstrip(" ").lower().startswith(DECL_KW):
-            return False
+        if lead < 6 and re.match(r"(integer|real|double *precision|complex|double *complex|character|logical|procedure|external|class|type)",
+                                 l.lstrip(" "), re.I):
+            return False   # a complete type keyword starting before column 6 (the keyword must not be split over lines)
         if not re.match(r"[!cCdD*]", l):
             code = l.split("!")[0].strip()
             if code.endswith("&"):
@@ -144,9 +145,14 @@ def gather_programs(ck, tier, rnd, want):
             if st["stack"] == [] and 3 <= len(st["prog"]) <= 12:
                 progs.append(st)
                 break
+    info = {}
+    sprogs = [st for st in tlc.dump_states("FortranScopes", "FortranScopes_GenSubmod.cfg", info=info, timeout=1800,
+                                           prefilter=lambda t: "stack = <<>>" in t and '"submodule"' in t and '"typedvar"' in t)]
+    ck.add_tlc("FortranScopes_GenSubmod", info["result"])
     rnd.shuffle(progs)
     rnd.shuffle(dprogs)
-    return progs[: want * 2 // 3] + dprogs[: want // 3]
+    rnd.shuffle(sprogs)
+    return progs[: want * 2 // 3] + dprogs[: want // 3] + sprogs[: max(20, want // 10)]
 
 
 def run(ck, tier, rnd, fixed, scale=1.0, opk_free=None):
